@@ -318,7 +318,17 @@ pub fn replay_case(rep: &mut Report, case: &Value, ci: usize, layout: usize, tmp
             "fulfil" => { let v = concretise(&st["v"], &bad); let p = promises.remove(&r).expect("promise"); guarded(|| s.fulfil(p, v).map(Some)) }
             "get" => Outcome::Done(Ok(None)),
             "save" => match guarded(|| s.save()) {
-                Outcome::Done(Ok(b)) => { saved = Some(b); Outcome::Done(Ok(None)) }
+                Outcome::Done(Ok(b)) => {
+                    // the saved bytes are a well-formed file for an independent reader too (files with junk before the header
+                    // are outside the validator's domain)
+                    if hdr == 0 {
+                        let v = crate::validate::validate(&b);
+                        if !v.problems.is_empty() {
+                            run.fail("invalid-file:save", k, json!({"problems": v.problems.iter().take(4).collect::<Vec<_>>()}));
+                        }
+                    }
+                    saved = Some(b); Outcome::Done(Ok(None))
+                }
                 Outcome::Done(Err(e)) => Outcome::Done(Err(e)),
                 Outcome::Panic(p) => Outcome::Panic(p),
             },
